@@ -23,7 +23,8 @@ from ...BoundaryCondition.CConversionBoundaryCondition import CConversionBoundar
 from ...Volume.ConstructVolumeT4 import extract_used_surfaces
 
 
-def writeT4BoundCond(dic_surf_mcnp, ofile, renumber=None, dic_volume=None):
+def writeT4BoundCond(dic_surf_mcnp, ofile, renumber=None, dic_volume=None,
+                     bounding=None):
     '''Method writing the boundary conditions to the T4 input file.
 
     :param renumber: the surface renumbering produced by the de-duplication
@@ -32,6 +33,10 @@ def writeT4BoundCond(dic_surf_mcnp, ofile, renumber=None, dic_volume=None):
     :param dic_volume: the T4 volumes, if available: only surfaces that
         appear in some volume are written to the T4 file and can carry a
         boundary condition.
+    :param bounding: the surfaces that bound some cell before the
+        de-duplication pass, if available: a flagged surface that bounds no
+        cell yields nothing, even if an identical, unflagged surface is later
+        merged into it.
     '''
     d_boundCond = CConversionBoundaryCondition(
         dic_surf_mcnp).conversionBoundCond()
@@ -40,6 +45,8 @@ def writeT4BoundCond(dic_surf_mcnp, ofile, renumber=None, dic_volume=None):
         used = extract_used_surfaces(dic_volume.values())
     bound_conds = OrderedDict()
     for key, bound_cond in d_boundCond.items():
+        if bounding is not None and key not in bounding:
+            continue
         if renumber:
             key = renumber.get(key, key)
         if used is not None and key not in used:
